@@ -1,4 +1,6 @@
 """Per-property configuration of the check orchestrator."""
+import os
+REPO = os.environ.get("VERIF_REPO", "/repo")
 
 PROPS = {
     "C19": dict(
@@ -78,5 +80,32 @@ PROPS = {
                  "the inventory of explicit panic( sites is regenerated from the source; the generator itself is fuzzed under recover (not modelled for this property)",
         assumptions=["panics inside go/packages, jennifer and the Go runtime are outside any model; for them the fuzzer is the only evidence",
                      "termination is observed with a deadline, not proved"],
+    ),
+    "C15": dict(
+        props="props/C15.v", libs=["theories/Paths.vo"], streams=[dict(name="tool-c15", args=["-repo", REPO])],
+        mismatch_is_violation=True,
+        modelled="path/filepath Clean/Join/Dir/Base/Ext/Rel (Unix), config/parse/file.go File, generator/filemanager.go getOutputDir, config/converter.go defaultOutputFile/resolveOutputPackage, "
+                 "config/package.go resolvePackage, jennifer guessAlias (Paths.v); runner.go writeFiles modes are read from the source",
+        assumptions=["the Go toolchain (go list build-constraint evaluation, package loading), the OS file system (no symlinks, case-sensitive, Unix separators) and jennifer's rendering are outside the model", "I/O faults during writeFiles are outside the property's quantifier"],
+    ),
+    "C16": dict(
+        props="props/C16.v", libs=["theories/Constraint.vo"], streams=[dict(name="tool-c16", args=["-repo", REPO])],
+        mismatch_is_violation=True,
+        modelled="header comments of generator/filemanager.go Get (texts read from the source), CLI defaults of -build-tags / -output-constraint (read from the source), "
+                 "//go:build evaluation for tag and !tag, file selection and loading as a predicate over selected files (Constraint.v)",
+        assumptions=["the Go toolchain (go list build-constraint evaluation, package loading), the OS file system (no symlinks, case-sensitive, Unix separators) and jennifer's rendering are outside the model", "I/O faults during writeFiles are outside the property's quantifier"],
+    ),
+    "C17": dict(
+        props="props/C17.v", libs=["theories/Cli.vo"], streams=[dict(name="cli"), dict(name="tool-c17", args=["-repo", REPO])],
+        mismatch_is_violation=True,
+        modelled="cli/parse.go Parse/parseGen incl. the part of the flag package they use, cli/run.go exit codes (read from the source), runner.go GenerateConverters as a "
+                 "file-system transition whose shape (write only after everything was generated; no other file-system mutation in the sources) is read from the source (Cli.v)",
+        assumptions=["the Go toolchain (go list build-constraint evaluation, package loading), the OS file system (no symlinks, case-sensitive, Unix separators) and jennifer's rendering are outside the model", "I/O faults during writeFiles are outside the property's quantifier"],
+    ),
+    "C09": dict(
+        props="props/C09.v", libs=["theories/Perm.vo"], streams=[dict(name="tool-c09", args=["-repo", REPO])],
+        modelled="iteration over a Go map as iteration over an arbitrary permutation (Perm.v); the inventory of map-range sites with their loop-pattern class is regenerated from the "
+                 "source with type information; file selection under build constraints (Constraint.v)",
+        assumptions=["the Go toolchain (go list build-constraint evaluation, package loading), the OS file system (no symlinks, case-sensitive, Unix separators) and jennifer's rendering are outside the model", "I/O faults during writeFiles are outside the property's quantifier"] + ["the loop-pattern classifier of the extractor is heuristic (returns / append+sort / plain assignments)"],
     ),
 }
